@@ -19,8 +19,10 @@ CFG = {
         "the rule templates are tied to the encoder by coq/Encoding/EncOk.v enc_rules_ok: for every model case the harness "
         "translates the text of the maintenance rules that the REAL encoder emits for the case's signature "
         "(resolve_program in term-encoding mode) into Gallina rule values and the kernel checks that, ruleset by "
-        "ruleset, they equal the template instances enc_prog sg up to variable names (rules over __to_subsume tables "
-        "excluded); trusted there: the s-expression-to-Gallina translation in h_modes (encoded_rules_coq)",
+        "ruleset, they equal the template instances enc_prog sg up to variable names; the rules that re-key pending "
+        "__to_subsume_f requests are compared with their own template (EncOk.sub_rules, also for constructors mixing "
+        "primitive and eq-sort inputs); only __delete_rule_subsume is left out; trusted there: the "
+        "s-expression-to-Gallina translation in h_modes (encoded_rules_coq)",
     ],
     "theorem_backed": (
         "for every constructor-only signature with one eq-sort: (1) every ruleset / schedule of the maintenance "
